@@ -74,6 +74,50 @@ def prepare(repo, tag, append_to=None):
 CHECK_RE = re.compile(r'^Check (\d+): (\S+)\n\s+- Status: (\w+)\n\s+- Description: "(.*)"\n\s+- Location: (.*)$', re.M)
 
 
+def tree_hash(repo):
+    import hashlib
+    h = hashlib.sha256()
+    files = []
+    for root, _, fs in os.walk(os.path.join(repo, 'src')):
+        for f in fs:
+            files.append(os.path.join(root, f))
+    files += [os.path.join(repo, 'Cargo.toml'), os.path.join(repo, 'Cargo.lock')]
+    for root, _, fs in os.walk(os.path.join(VERIF, 'kani')):
+        for f in fs:
+            files.append(os.path.join(root, f))
+    files.append(os.path.abspath(__file__))
+    for f in sorted(files):
+        if os.path.exists(f):
+            h.update(f.encode()); h.update(open(f, 'rb').read())
+    return h.hexdigest()[:24]
+
+
+def run_cached(repo, harnesses, tag='default', timeout=900, jobs=4):
+    """Like run(), but verdicts are remembered per (content hash of repo sources + harness sources, harness):
+    the same inputs give the same verdict.  VERIF_NO_KANI_CACHE=1 disables it."""
+    if os.environ.get('VERIF_NO_KANI_CACHE') == '1':
+        return run(repo, harnesses, tag, timeout, jobs)
+    key = tree_hash(repo)
+    cdir = os.path.join(VERIF, '.cache', 'kani-results', key)
+    os.makedirs(cdir, exist_ok=True)
+    out = {}
+    todo = []
+    for h in harnesses:
+        p = os.path.join(cdir, h + '.json')
+        if os.path.exists(p):
+            out[h] = json.load(open(p))
+            out[h]['cached'] = True
+        else:
+            todo.append(h)
+    if todo:
+        res = run(repo, todo, tag, timeout, jobs)
+        for h, r in res.items():
+            out[h] = r
+            if r['status'] in ('ok', 'fail'):
+                json.dump(r, open(os.path.join(cdir, h + '.json'), 'w'))
+    return out
+
+
 def run(repo, harnesses, tag='default', timeout=900, jobs=4, playback=False, extra_args=None):
     """Run the given harness names (list).  Returns dict name -> result."""
     t0 = time.time()
@@ -83,7 +127,7 @@ def run(repo, harnesses, tag='default', timeout=900, jobs=4, playback=False, ext
     env['CARGO_TARGET_DIR'] = TARGET_DIR
     env.pop('RUSTUP_TOOLCHAIN', None)
     results = {}
-    cmd = ['cargo', 'kani', '-Z', 'stubbing']
+    cmd = ['prlimit', '--as=' + os.environ.get('VERIF_KANI_AS', '30000000000'), 'cargo', 'kani', '-Z', 'stubbing']
     if playback:
         cmd += ['--output-format', 'regular', '-Z', 'concrete-playback', '--concrete-playback=print']
     else:
